@@ -316,6 +316,29 @@ def friendly_settings(rng):
 SMALL_ALPHABET = [0, 1, 3, 9, 36, 128]
 
 
+class _GenTimeout(Exception):
+    pass
+
+
+def _real_pretty_ok(blk: bytes) -> bool:
+    """True when the real pretty functions accept the block (watchdog: a hanging decoder must not hang the generator)."""
+    def on_alarm(signum, frame):
+        raise _GenTimeout()
+
+    saved = signal.signal(signal.SIGALRM, on_alarm)
+    signal.setitimer(signal.ITIMER_REAL, 2.0)
+    try:
+        B.BeaconConfig(blk).settings_map("enum", pretty=True)
+        return True
+    except _GenTimeout:
+        return True  # keep it: the timeout is then observed (and reported) through impl
+    except Exception:  # noqa: BLE001
+        return False
+    finally:
+        signal.setitimer(signal.ITIMER_REAL, 0)
+        signal.signal(signal.SIGALRM, saved)
+
+
 def gen(tier, rng, shard, nshards):
     thorough = tier == "thorough"
     k = 0
@@ -355,11 +378,11 @@ def gen(tier, rng, shard, nshards):
             yield "views", f"views {C.hx(blk)} l"
 
     # ---- parse: random settings lists + tails
-    for _ in range((24000 if thorough else 2400) // nshards):
+    for _ in range((60000 if thorough else 6000) // nshards):
         yield "parse", "parse " + C.hx(gen_block(rng))
 
     # ---- trunc: every prefix of one (thorough: six) sample(s) per shard
-    for _ in range(6 if thorough else 1):
+    for _ in range(12 if thorough else 2):
         ss = gen_settings(rng, True, 6)
         if rng.random() < 0.5:
             ss.insert(rng.randrange(0, len(ss) + 1), (9, 3, 128, bytes(rng.randrange(1, 256) for _ in range(128))))
@@ -369,7 +392,7 @@ def gen(tier, rng, shard, nshards):
             yield "trunc", "parse " + C.hx(blk[:cut])
 
     # ---- ua
-    for _ in range((8000 if thorough else 1000) // nshards):
+    for _ in range((30000 if thorough else 3000) // nshards):
         yield "ua", "parse " + C.hx(gen_ua(rng))
 
     # ---- junk: exhaustive over a small alphabet + random
@@ -382,13 +405,13 @@ def gen(tier, rng, shard, nshards):
     for t in itertools.product([0, 1, 2, 9, 36], repeat=6):
         if mine():
             yield "junk", "parse " + C.hx(bytes(t) + bytes([7] * 40) + b"\x00\x00")
-    for _ in range((12000 if thorough else 1500) // nshards):
+    for _ in range((30000 if thorough else 4000) // nshards):
         n = rng.choice([1, 2, 5, 6, 7, 8, 12, 13, 14, 30, 200])
         alpha = rng.choice([SMALL_ALPHABET, [0, 1, 2, 3], list(range(256)), [0, 9, 128, 65]])
         yield "junk", "parse " + C.hx(bytes(rng.choice(alpha) for _ in range(n)))
 
     # ---- views (stubbed pretty functions)
-    for _ in range((12000 if thorough else 1500) // nshards):
+    for _ in range((40000 if thorough else 4000) // nshards):
         blk = gen_block(rng, small=True) if rng.random() < 0.85 else gen_ua(rng)
         r = rng.random()
         if r < 0.7:
@@ -402,15 +425,12 @@ def gen(tier, rng, shard, nshards):
         yield "views", f"views {C.hx(blk)} {C.ints(raising)}"
 
     # ---- real pretty functions (only inputs on which none of them raises)
-    want = (3000 if thorough else 400) // nshards
+    want = (6000 if thorough else 800) // nshards
     tries = 0
-    while want > 0 and tries < 20 * ((3000 if thorough else 400) // nshards + 1):
+    while want > 0 and tries < 20 * ((6000 if thorough else 800) // nshards + 1):
         tries += 1
         blk = b"".join(enc(*s) for s in friendly_settings(rng)) + gen_tail(rng)
-        try:
-            c = B.BeaconConfig(blk)
-            c.settings_map("enum", pretty=True)
-        except Exception:  # noqa: BLE001
+        if not _real_pretty_ok(blk):
             continue
         want -= 1
         yield "real", "real " + C.hx(blk)
@@ -484,10 +504,24 @@ def _maps(blk: bytes, show_item):
     return combos, views
 
 
+_timeouts = 0
+
+
 def impl(stream, line):
     # every call takes milliseconds; shorten the runner's 10 s watchdog so that a non-terminating decoder
-    # (e.g. the User-Agent scan without its end-of-data check) is reported as `exc Timeout` quickly
-    signal.alarm(3)
+    # (e.g. the User-Agent scan without its end-of-data check) is reported as `exc Timeout` quickly.
+    # After three timeouts in a worker the run is failing anyway and the budget drops further.
+    global _timeouts
+    signal.setitimer(signal.ITIMER_REAL, 5.0 if _timeouts < 3 else 0.25)
+    try:
+        return _impl(stream, line)
+    except BaseException as e:  # noqa: BLE001
+        if type(e).__name__ == "Timeout":
+            _timeouts += 1
+        raise
+
+
+def _impl(stream, line):
     w = line.split()
     blk = C.unhx(w[1])
     if w[0] == "parse":
